@@ -38,6 +38,7 @@ import (
 
 var (
 	errChunkNotSupported = errors.New("reading / writing chunk of piece not supported")
+	errMissingBody       = errors.New("message has no body for its type")
 )
 
 // Events defines Dispatcher events.
@@ -497,12 +498,24 @@ func (d *Dispatcher) feed(p *peer) {
 func (d *Dispatcher) dispatch(p *peer, msg *conn.Message) error {
 	switch msg.Message.Type {
 	case p2p.Message_ERROR:
+		if msg.Message.Error == nil {
+			return errMissingBody
+		}
 		d.handleError(p, msg.Message.Error)
 	case p2p.Message_ANNOUCE_PIECE:
+		if msg.Message.AnnouncePiece == nil {
+			return errMissingBody
+		}
 		d.handleAnnouncePiece(p, msg.Message.AnnouncePiece)
 	case p2p.Message_PIECE_REQUEST:
+		if msg.Message.PieceRequest == nil {
+			return errMissingBody
+		}
 		d.handlePieceRequest(p, msg.Message.PieceRequest)
 	case p2p.Message_PIECE_PAYLOAD:
+		if msg.Message.PiecePayload == nil || msg.Payload == nil {
+			return errMissingBody
+		}
 		d.handlePiecePayload(p, msg.Message.PiecePayload, msg.Payload)
 	case p2p.Message_CANCEL_PIECE:
 		d.handleCancelPiece(p, msg.Message.CancelPiece)
